@@ -284,7 +284,8 @@ func (c *otApplyContext) applySubsAlternate(alternates []gID) bool {
 	if altIndex == otMapMaxValue && c.random {
 		// Maybe we can do better than unsafe-to-break all; but since we are
 		// changing random state, it would be hard to track that.  Good 'nough.
-		c.buffer.unsafeToBreak(0, len(c.buffer.Info))
+		// (the glyphs already processed by this lookup live in the out-buffer)
+		c.buffer.unsafeToBreakFromOutbuffer(0, len(c.buffer.Info))
 		altIndex = c.randomNumber()%count + 1
 	}
 
